@@ -189,6 +189,7 @@ class Interp:
         self.fault("loadfn", st, b=b, f=f)
         n = b.load_function(f, **self._inst(st))
         self.nodes[st["id"]] = n
+        self.handles.append(("load_function", n, 1))
         self.w[st["out"]] = n[0]
 
     def st_order(self, b, st):
